@@ -190,9 +190,10 @@ fn cmd_replay(path: &str, dump: bool, fresh: bool) -> i32 {
         if v["kind"].as_str() == Some("miri") {
             return cmd_replay_miri(&v, dump);
         }
-        if v["build"].as_str() == Some("default-features") && cfg!(feature = "async_flavour") {
-            // found by the harness built against the default feature set: replay it there
-            let mut c = std::process::Command::new(default_features_bin());
+        if let Some(label) = v["build"].as_str().filter(|l| Some(*l) != build_label()) {
+            // found by another build of the harness (other feature set of the library): replay it there
+            let bin = other_build_bin(label);
+            let mut c = std::process::Command::new(&bin);
             c.arg("replay").arg(path);
             if dump {
                 c.arg("--dump");
@@ -203,7 +204,7 @@ fn cmd_replay(path: &str, dump: bool, fresh: bool) -> i32 {
             return match c.status() {
                 Ok(st) => st.code().unwrap_or(2),
                 Err(e) => {
-                    eprintln!("HARNESS-ERROR: cannot run {}: {} (./dst builds it)", default_features_bin().display(), e);
+                    eprintln!("HARNESS-ERROR: cannot run {}: {} (./dst builds it)", bin.display(), e);
                     2
                 }
             };
@@ -305,7 +306,7 @@ fn cmd_check(prop: &str, tier: &str) -> i32 {
     let t0 = std::time::Instant::now();
     crate::gen::THOROUGH.store(tier == "thorough", std::sync::atomic::Ordering::SeqCst);
     let seed = base_seed();
-    let sub = !cfg!(feature = "async_flavour");
+    let sub = build_label().is_some();
     let n = tier_runs(prop, tier);
     let workers = std::env::var("DST_WORKERS").ok().and_then(|s| s.parse().ok()).unwrap_or(16usize);
     let cap = match (tier == "thorough", sub) {
@@ -347,7 +348,7 @@ fn cmd_check(prop: &str, tier: &str) -> i32 {
         let plan: Plan = crate::gen::gen_plan(prop, *s, *i);
         match minimise(&plan, v, &props, 400) {
             Some(rf) => {
-                let name = format!("{}-{}-{}{}.json", prop, rule, s, if sub { "-default-features" } else { "" });
+                let name = format!("{}-{}-{}{}.json", prop, rule, s, build_label().map(|l| format!("-{}", l)).unwrap_or_default());
                 let path = replay_dir.join(name);
                 std::fs::write(&path, serde_json::to_string_pretty(&rf).unwrap()).unwrap();
                 println!("VIOLATION property={} replay={}", prop, path.display());
@@ -373,13 +374,14 @@ fn cmd_check(prop: &str, tier: &str) -> i32 {
     }
     let (miri_ev, miri_viol) = miri_stage(prop, tier, seed);
     new_violations += miri_viol;
-    let (df_ev, df_viol, df_exit) = default_features_stage(prop, tier, n);
-    new_violations += df_viol;
-    if df_exit == 2 {
+    let (df_ev, df_viol, df_exit) = other_build_stage("default-features", prop, tier, n);
+    let (ao_ev, ao_viol, ao_exit) = other_build_stage("async-only", prop, tier, n);
+    new_violations += df_viol + ao_viol;
+    if df_exit == 2 || ao_exit == 2 {
         exit = 2;
     }
     let wall = t0.elapsed().as_secs_f64();
-    let miri_ev = serde_json::json!({"miri": miri_ev, "default_features": df_ev});
+    let miri_ev = serde_json::json!({"miri": miri_ev, "default_features": df_ev, "async_only": ao_ev});
     write_evidence(prop, tier, seed, &agg, wall, new_violations, known_hits, &reported, &miri_ev);
     println!(
         "{} {}: runs={} distinct_schedules={} distinct_histories={} nontrivial_distinct={} checkpoint_states={} violations={} known={} wall={:.1}s",
@@ -401,6 +403,22 @@ fn cmd_check(prop: &str, tier: &str) -> i32 {
     }
 }
 
+/// Which build of the harness this is: None = both flavours (library features sync + async, the
+/// main stage), otherwise the label carried by replay files of that build.
+pub fn build_label() -> Option<&'static str> {
+    match (cfg!(feature = "sync_flavour"), cfg!(feature = "async_flavour")) {
+        (true, true) => None,
+        (true, false) => Some("default-features"),
+        _ => Some("async-only"),
+    }
+}
+
+fn other_build_bin(label: &str) -> std::path::PathBuf {
+    let dir = if label == "async-only" { "target-async" } else { "target-sync" };
+    std::env::current_exe().ok().and_then(|p| p.parent().and_then(|d| d.parent()).and_then(|d| d.parent()).map(|d| d.join(dir).join("release/dst"))).unwrap_or_else(|| verif_dir().join(dir).join("release/dst"))
+}
+
+#[allow(dead_code)]
 fn default_features_bin() -> std::path::PathBuf {
     std::env::current_exe().ok().and_then(|p| p.parent().and_then(|d| d.parent()).and_then(|d| d.parent()).map(|d| d.join("target-sync/release/dst"))).unwrap_or_else(|| verif_dir().join("target-sync/release/dst"))
 }
@@ -409,14 +427,14 @@ fn default_features_bin() -> std::path::PathBuf {
 /// library's DEFAULT feature set (`sync` only - what `stretto = "0.8"` gives a user), a tenth of
 /// the runs.  The main stage compiles the crate with `sync` + `async`; code under
 /// `#[cfg(feature = ...)]` can differ between the two builds.
-fn default_features_stage(prop: &str, tier: &str, n: u64) -> (serde_json::Value, usize, i32) {
+fn other_build_stage(label: &str, prop: &str, tier: &str, n: u64) -> (serde_json::Value, usize, i32) {
     if prop == "C19" {
         return (serde_json::json!({"status": "not applicable: C19 compares the two flavours, which needs both features"}), 0, 0);
     }
     if std::env::var("DST_NO_DEFAULT_FEATURES_STAGE").is_ok() {
         return (serde_json::json!({"status": "skipped (DST_NO_DEFAULT_FEATURES_STAGE)"}), 0, 0);
     }
-    let bin = default_features_bin();
+    let bin = other_build_bin(label);
     let runs = std::env::var("DST_RUNS").ok().and_then(|s| s.parse::<u64>().ok()).unwrap_or(n) / 10;
     let runs = runs.max(500);
     let out = std::process::Command::new(&bin)
@@ -427,7 +445,7 @@ fn default_features_stage(prop: &str, tier: &str, n: u64) -> (serde_json::Value,
     let out = match out {
         Ok(o) => o,
         Err(e) => {
-            eprintln!("HARNESS-ERROR: cannot run the default-features build of the harness ({}): {} - ./dst builds it", bin.display(), e);
+            eprintln!("HARNESS-ERROR: cannot run the {} build of the harness ({}): {} - ./dst builds it", label, bin.display(), e);
             return (serde_json::json!({"status": "harness error: binary missing"}), 0, 2);
         }
     };
@@ -448,18 +466,18 @@ fn default_features_stage(prop: &str, tier: &str, n: u64) -> (serde_json::Value,
             pass = false;
             println!("{}", l);
         } else if pass && l.starts_with("  ") {
-            println!("{} (default-features build)", l);
+            println!("{} ({} build)", l, label);
         } else {
             pass = false;
         }
     }
     let err = String::from_utf8_lossy(&out.stderr);
     for l in err.lines().filter(|l| l.starts_with("HARNESS-ERROR")) {
-        eprintln!("{} (default-features build)", l);
+        eprintln!("{} ({} build)", l, label);
     }
     let code = out.status.code().unwrap_or(2);
     let mut ev = serde_json::json!({
-        "engine": "the same simulator, families and oracles; harness and shadow library built with --no-default-features (library feature set: sync), Cache only",
+        "engine": if label == "async-only" { "the same simulator, families and oracles; harness and shadow library built with --no-default-features --features async_flavour (library feature set: async), AsyncCache only" } else { "the same simulator, families and oracles; harness and shadow library built with --no-default-features --features sync_flavour (library feature set: sync, the crate's default), Cache only" },
         "status": if code == 0 { "held" } else if code == 1 { "violation" } else { "harness error" },
     });
     if let (Some(a), Some(b)) = (ev.as_object_mut(), summary.as_object()) {
@@ -623,6 +641,7 @@ fn write_evidence(prop: &str, tier: &str, seed: u64, agg: &Agg, wall: f64, viola
             "reported": reported,
             "second_stage_miri": miri["miri"],
             "third_stage_default_feature_set": miri["default_features"],
+            "third_stage_async_only_feature_set": miri["async_only"],
             "known_findings_matched": known,
             "real_components": ["stretto cache, store, ttl, policy, ring, sketch, bbloom, metrics, histogram, utils (working tree of /repo)", "parking_lot locks", "wg wait groups", "async flavour: async-channel, futures::select!, event-listener, wg::AsyncWaitGroup"],
             "stubbed_components": ["OS scheduler (baton scheduler, one task at a time)", "std::thread::spawn / executor spawner", "wall clock (SystemTime)", "monotonic clock (std::time::Instant: clock_gettime is defined by the harness binary and reads the virtual clock during a run)", "crossbeam tick / async-io Timer", "sync flavour: crossbeam-channel and select! (simulator channel)"],
